@@ -182,3 +182,24 @@ pub fn zigdump() {
     let h = |v: &[f64; 257]| v.iter().map(|x| hex64(x.to_bits())).collect::<Vec<_>>();
     println!("{}", json!({"norm_r": hex64(nr.to_bits()), "norm_x": h(nx), "norm_f": h(nf), "exp_r": hex64(er.to_bits()), "exp_x": h(ex), "exp_f": h(ef)}));
 }
+
+/// C06: what the ziggurat does with a chosen first word (layer index in the low 8 bits, u in bits 12..63)
+pub fn zigprobe(job: &Value) {
+    use rand_distr::{Distribution, Exp1, StandardNormal};
+    let seed = job["seed"].as_u64().unwrap_or(0);
+    let us: Vec<u64> = vec![0, 1, 2, (1 << 51) - 1, 1 << 51, (1 << 51) + 1, (1 << 52) - 2, (1 << 52) - 1, 0x5_5555_5555_5555, 0xA_AAAA_AAAA_AAAA];
+    let mut rows = vec![];
+    for layer in 0u64..256 {
+        for (ui, &u) in us.iter().enumerate() {
+            for fill in [0u64, 0xf00] {
+                let w = (u << 12) | fill | layer;
+                let mut r1 = Mon::new(Scripted::new(seed, 0, w));
+                let x: f64 = StandardNormal.sample(&mut r1);
+                let mut r2 = Mon::new(Scripted::new(seed, 0, w));
+                let e: f64 = Exp1.sample(&mut r2);
+                rows.push(json!([layer, ui, hex64(u), fill, hex64(x.to_bits()), r1.count, hex64(e.to_bits()), r2.count]));
+            }
+        }
+    }
+    println!("{}", json!({"ev": "zigprobe", "rows": rows}));
+}
